@@ -112,10 +112,32 @@ def run_batch(pid, stratum, seed, start, n, tier, scratch, env, batch_wall):
             break
         # worker died: the case in progress is inconclusive
         if last_started is None:
+            if attempts < 3:
+                continue  # start-up failure (fork/import under memory pressure): try the same range again
             recs.append({"s": stratum, "i": pos, "infra": f"worker failed before first case rc={rc}: {err}"})
             break
         if last_started not in got:
-            recs.append({"s": stratum, "i": last_started, "infra": f"worker died/timed out in case rc={rc}: {err}"})
+            # retry the case alone in a fresh process once: a death that does not repeat was the machine, not the case
+            single = os.path.join(scratch, f"{pid}-{stratum}-{start}-retry{last_started}.jsonl")
+            cmd1 = [PY, "-m", "vf.worker", pid, stratum, str(seed), str(last_started), "1", tier, single]
+            ok1 = False
+            try:
+                subprocess.run(cmd1, cwd=ROOT, env=env, capture_output=True, text=True, timeout=batch_wall)
+                if os.path.exists(single):
+                    for line in open(single):
+                        try:
+                            j = json.loads(line)
+                        except Exception:
+                            continue
+                        if "o" in j:
+                            j["retried_after_worker_death"] = True
+                            recs.append(j)
+                            ok1 = True
+                    os.remove(single)
+            except subprocess.TimeoutExpired:
+                pass
+            if not ok1:
+                recs.append({"s": stratum, "i": last_started, "infra": f"worker died/timed out in case (twice) rc={rc}: {err}"})
         pos = last_started + 1
     return recs
 
